@@ -107,6 +107,9 @@ theorem runs_decodePointAttributes (dopts : DecOpts) (ch : Choices) (opts : EncO
             exact ⟨attFacts ch opts n j p.1 p.2 hn ha hj2, ha.attType, ha.dataType, g3, g2,
               ha.numComponents, ha.uniqueId⟩)
         rw [hs, hlen] at this
+        unfold decodeSequentialAttributesV
+        refine Runs.bind0 (Runs.version v) ?_
+        rw [if_neg (by omega)]
         refine Runs.of_eq this rfl rfl ?_
         rw [List.map_zip_eq_zipWith]
         rfl
